@@ -435,6 +435,9 @@ func (w *walletWrap) CreateCoopSpendingTransaction(p *swap.OpeningParams, c *swa
 	return w.spend("coop", func() (string, string, string, error) { return w.real.CreateCoopSpendingTransaction(p, c, s) })
 }
 func (w *walletWrap) GetOutputScript(p *swap.OpeningParams) ([]byte, error) {
+	if _, err := w.inc.enter(w.chain + ".outputscript"); err != nil {
+		return nil, err
+	}
 	return w.real.GetOutputScript(p)
 }
 func (w *walletWrap) NewAddress() (string, error) {
